@@ -114,17 +114,25 @@ Lemma bool_before_all :
   /\ str_eqb xsd_boolean xsd_string = false /\ str_eqb xsd_string xsd_boolean = false.
 Proof. vm_compute. repeat split; reflexivity. Qed.
 
-Lemma num_dt_facts : forall d, d = xsd_integer \/ d = xsd_decimal ->
+Lemma between_facts : forall d, between d ->
   str_ltb d xsd_string = true /\ str_ltb xsd_string d = false /\ str_eqb d xsd_string = false /\ str_eqb xsd_string d = false
   /\ str_ltb xsd_boolean d = true /\ str_ltb d xsd_boolean = false /\ str_eqb d xsd_boolean = false /\ str_eqb xsd_boolean d = false.
-Proof. intros d [E|E]; subst; vm_compute; repeat split; reflexivity. Qed.
+Proof.
+  intros d [B S].
+  assert (forall x y, str_ltb x y = true -> str_eqb x y = false /\ str_eqb y x = false) as NE.
+  { intros x y H. split.
+    - destruct (str_eqb x y) eqn:E; auto. apply str_eqb_eq in E. subst. rewrite str_ltb_irrefl in H. discriminate.
+    - destruct (str_eqb y x) eqn:E; auto. apply str_eqb_eq in E. subst. rewrite str_ltb_irrefl in H. discriminate. }
+  destruct (NE _ _ S) as [A1 A2]. destruct (NE _ _ B) as [A3 A4].
+  repeat split; auto using str_ltb_asym.
+Qed.
 
 Lemma class_num_facts : forall lex dt lang m e, lit_class lex dt lang = CNum m e ->
   let d := dt_or_string dt in
   str_ltb d xsd_string = true /\ str_ltb xsd_string d = false /\ str_eqb d xsd_string = false /\ str_eqb xsd_string d = false
   /\ str_ltb xsd_boolean d = true /\ str_ltb d xsd_boolean = false /\ str_eqb d xsd_boolean = false /\ str_eqb xsd_boolean d = false.
 Proof.
-  intros lex dt lang m e H. apply num_dt_facts. destruct (class_num_dt _ _ _ _ _ H) as [E|E]; subst; auto.
+  intros lex dt lang m e H. destruct (class_num_dt _ _ _ _ _ H) as [d [E B]]. subst. apply between_facts. exact B.
 Qed.
 
 Lemma class_bool_dtkey : forall lex dt lang b, lit_class lex dt lang = CBool b -> dt_or_string dt = xsd_boolean.
@@ -371,4 +379,12 @@ Proof.
   unfold hash_present in HP. rewrite forallb_forall in HP.
   assert (In (nth i (o_hash o) None) (o_hash o)) as I by (apply nth_In; lia).
   specialize (HP _ I). destruct (nth i (o_hash o) None); [eauto|discriminate].
+Qed.
+
+(* the conformance flags (computed by the harness, named in Term/Model.v): the checker rejects an observation in which
+   any of them is false *)
+Lemma spec_ok_flags_reads : forall c o, spec_ok c o = true -> ~ In (Some false) (o_flags o).
+Proof.
+  intros c o H. unfold spec_ok in H. do 5 (apply andb_true_iff in H as [H _]). unfold spec_base in H.
+  apply andb_true_iff in H as [_ H]. intro Hin. rewrite forallb_forall in H. specialize (H _ Hin). discriminate.
 Qed.
